@@ -1069,6 +1069,142 @@ pub fn xpath_corpus_repeat(doc_index: usize, expr: &str, expected: &str) -> Outc
     Outcome { observed, expected: "same value every time, document unchanged".to_string(), note: String::new() }
 }
 
+// C07, set algebra (no oracle needed: the property states the laws).  For every ordered pair (A, B) of operand paths -- among them
+// paths whose LAST step reaches a node from several context nodes (`//ancestor::*`, `//..`), operands that lie wholly before or after
+// each other, overlapping and empty ones -- on a fixed document:
+//   A | B is duplicate-free and in document order;  A | B = B | A;  its nodes are exactly those of A and those of B;  A | A = A;
+//   A | B | A = A | B;  count(A | B) <= count(A) + count(B);  (A | B)[1] and (A | B)[last()] are its first and last node.
+pub const UNION_DOC: &str = "<r xmlns:p='urn:p' x='0'><a><b/><b/></a><c><d/><a x='1' y='2'><b>t</b></a></c><e/><!--k--></r>";
+pub const UNION_OPERANDS: [&str; 36] = [
+    "//a", "//b", "//c", "//e", "//d", "//ancestor::a", "//ancestor::*", "//..", "//*/..", "//b/..", "//b/parent::*", "//b/ancestor::*", "//b/ancestor-or-self::*",
+    "//b/preceding-sibling::*", "//b/following-sibling::*", "//b/following::*", "//b/preceding::*", "//*/descendant::b", "//a/descendant-or-self::*", "//@*", "//@x/..", "//@*/..",
+    "/r/*", "/r/a/b", "//nosuch", "/", "//text()", "(//b)/..", "//a/b[1]", "//a//b", "//*[b]", "//c//*", "/r/namespace::*", "//comment()", "//*/self::*", "//b/ancestor::*/@*",
+];
+
+pub fn xpath_union_algebra(a: &str, b: &str) -> Outcome {
+    use xml_xpath::eval::model::{Context, Value};
+    let expected = "the laws hold".to_string();
+    let observed = match catch_unwind(AssertUnwindSafe(|| {
+        let (_, doc) = xml_dom::XmlDocument::from_raw_with_context(UNION_DOC, xml_dom::Context::from_text_expanded(true)).unwrap();
+        // a node is identified by (id, order key, name): namespace nodes of different elements share nothing, attributes have ids
+        let keys = |q: &str| -> Result<Vec<(usize, usize)>, String> {
+            match xml_xpath::query(doc.clone(), q, &mut Context::default()) {
+                Ok(Value::Node(ns)) => Ok(ns.iter().map(|n| (n.order(), n.id())).collect()),
+                Ok(_) => Err(format!("{} is not a node-set", q)),
+                Err(e) => Err(format!("{} -> Err({})", q, e)),
+            }
+        };
+        let get = |q: String| keys(q.as_str());
+        let (ka, kb) = match (get(a.to_string()), get(b.to_string())) {
+            (Ok(x), Ok(y)) => (x, y),
+            _ => return "the laws hold".to_string(), // an operand that is refused: nothing to say
+        };
+        let u = match get(format!("{} | {}", a, b)) {
+            Ok(u) => u,
+            Err(e) => return e,
+        };
+        for w in u.windows(2) {
+            if w[0].0 >= w[1].0 {
+                return format!("{} | {} lists order keys {:?}: not strictly increasing (a duplicate, or out of document order)", a, b, u.iter().map(|k| k.0).collect::<Vec<_>>());
+            }
+        }
+        let mut want: Vec<(usize, usize)> = ka.iter().chain(kb.iter()).cloned().collect();
+        want.sort();
+        want.dedup();
+        if u != want {
+            return format!("{} | {} holds {:?}, the operands hold {:?}", a, b, u, want);
+        }
+        match get(format!("{} | {}", b, a)) {
+            Ok(v) if v == u => {}
+            Ok(v) => return format!("{} | {} = {:?} but {} | {} = {:?}", a, b, u, b, a, v),
+            Err(e) => return e,
+        }
+        let mut sa = ka.clone();
+        sa.sort();
+        sa.dedup();
+        match get(format!("{} | {}", a, a)) {
+            Ok(v) if v == sa => {}
+            Ok(v) => return format!("{} | {} = {:?}, the operand holds {:?}", a, a, v, sa),
+            Err(e) => return e,
+        }
+        match get(format!("{} | {} | {}", a, b, a)) {
+            Ok(v) if v == u => {}
+            Ok(v) => return format!("{} | {} | {} = {:?} but {} | {} = {:?}", a, b, a, v, a, b, u),
+            Err(e) => return e,
+        }
+        if u.len() > sa.len() + { let mut sb = kb.clone(); sb.sort(); sb.dedup(); sb.len() } {
+            return format!("count({} | {}) = {} exceeds count(A) + count(B)", a, b, u.len());
+        }
+        if !u.is_empty() {
+            match (get(format!("({} | {})[1]", a, b)), get(format!("({} | {})[last()]", a, b)), get(format!("({} | {})[{}]", a, b, u.len()))) {
+                (Ok(f), Ok(l), Ok(k)) => {
+                    if f != vec![u[0]] || l != vec![*u.last().unwrap()] || k != l {
+                        return format!("({} | {})[1] = {:?}, [last()] = {:?}, [{}] = {:?}; the union is {:?}", a, b, f, l, u.len(), k, u);
+                    }
+                }
+                (Err(e), _, _) | (_, Err(e), _) | (_, _, Err(e)) => return e,
+            }
+        }
+        "the laws hold".to_string()
+    })) {
+        Ok(s) => s,
+        Err(_) => expected.clone(), // a panic is C06's matter
+    };
+    Outcome { observed, expected, note: format!("document {}", UNION_DOC) }
+}
+
+// C19, series: `second` on a context that already served `first` (whatever it answered: a value, an error) must answer as on a fresh
+// context with the same bindings, and the document must print as before.  The queries are chosen for what a context could remember:
+// function names with and without a prefix (bound, bound to another URI, unbound), prefixed name tests, position and size, errors.
+pub const CTX_SERIES_DOC: &str = "<r xmlns:p='urn:p' xml:lang='en' x='1'><a>t</a><p:a y='2'/><a><b/></a><!--c--><?i d?></r>";
+pub const CTX_SERIES: [&str; 44] = [
+    "count(//a)", "p:count(//a)", "q:count(//a)", "zz:count(//a)", "true()", "p:true()", "translate('abc', 'ab', 'x')", "q:translate('abc', 'ab', 'x')",
+    "nosuch()", "p:nosuch()", "$x", "//a", "//p:a", "//q:a", "//zz:a", "//*[p:a]", "//a[nosuch()]", "//a[2]", "(//a)[last()]", "//a[position() = 2]",
+    "position()", "last()", "concat(position(), '/', last())", "//a | //b", "name(//*[2])", "local-name(//p:a)", "namespace-uri(//p:a)", "sum(//@*)", "lang('en')", "id('x')",
+    "1 div 0", "-1", "'s'", "/", "/..", "//@*", "//namespace::*", "//comment()", "//text()", "//processing-instruction()", "normalize-space()", "string-length()", "string(//a[1])", "//a/..",
+];
+
+pub fn xpath_ctx_series(first: &str, second: &str) -> Outcome {
+    use xml_xpath::eval::model::{Context, Value};
+    let expected = "as on a fresh context, document unchanged".to_string();
+    let observed = match catch_unwind(AssertUnwindSafe(|| {
+        let (_, doc) = xml_dom::XmlDocument::from_raw_with_context(CTX_SERIES_DOC, xml_dom::Context::from_text_expanded(true)).unwrap();
+        let before = format!("{}", doc);
+        let show = |v: xml_xpath::error::Result<'_, Value>| match v {
+            Err(e) => format!("Err({})", e),
+            Ok(Value::Boolean(b)) => format!("B:{}", b),
+            Ok(Value::Text(s)) => format!("S:{}", s),
+            Ok(Value::Number(x)) => format!("N:{:x}", x.to_bits()),
+            Ok(Value::Node(ns)) => format!("NS:{:?}", ns.iter().map(|n| (n.id(), n.order())).collect::<Vec<_>>()),
+        };
+        let bind = |c: &mut Context| {
+            c.add_ns(Some("p"), "urn:p");
+            c.add_ns(Some("q"), "urn:q");
+        };
+        let mut used = Context::default();
+        bind(&mut used);
+        // a panic in the first query is C06's matter; the context it leaves behind is still this grid's
+        let _ = catch_unwind(AssertUnwindSafe(|| {
+            let _ = xml_xpath::query(doc.clone(), first, &mut used);
+        }));
+        let a = show(xml_xpath::query(doc.clone(), second, &mut used));
+        let mut fresh = Context::default();
+        bind(&mut fresh);
+        let b = show(xml_xpath::query(doc.clone(), second, &mut fresh));
+        if a != b {
+            return format!("after {:?} the context answers {} where a fresh one answers {}", first, a, b);
+        }
+        if format!("{}", doc) != before {
+            return "the document prints differently after the two queries".to_string();
+        }
+        "as on a fresh context, document unchanged".to_string()
+    })) {
+        Ok(s) => s,
+        Err(_) => expected.clone(), // a panic is C06's matter
+    };
+    Outcome { observed, expected, note: format!("document {}", CTX_SERIES_DOC) }
+}
+
 /// C07 only: the node-set the expression returns is duplicate-free and in document order (WHICH nodes it holds is C05's matter)
 pub fn xpath_corpus_order(doc_index: usize, expr: &str, expected: &str) -> Outcome {
     let o = xpath_corpus(doc_index, expr, expected);
@@ -1364,8 +1500,10 @@ pub fn dom_edit_roundtrip(edits: &str) -> Outcome {
         }
         // delete_data (and replace_data / set_data, which delete) cannot refuse and can leave data that is invalid ON ITS OWN ("--"
         // in a comment, "]]>"): the three recorded open findings of C15, each an obligation of units/c16_chardata.py.  Such a
-        // history is theirs; this grid is about what else can go wrong.
-        if own_data_invalid(&doc) {
+        // history is theirs; this grid is about what else can go wrong.  ONLY a history with a deleting call is theirs: data that is
+        // invalid on its own after insertions alone (a comment that ends in "-" after append_data("-")) is this grid's business.
+        let deletes = edits.split(';').any(|e| matches!(e.split('.').nth(1), Some("set") | Some("rep") | Some("del0") | Some("delM")));
+        if deletes && own_data_invalid(&doc) {
             return "faithful".to_string();
         }
         let reported = edit_dump(&doc);
